@@ -127,7 +127,6 @@ def _model_apply(c, name, a):
         if name == "ne":
             return c != a[0]
         if name == "pop":
-            hash(a[0])
             if len(a) == 1:
                 return c.pop(a[0], None)  # documented deviation: default None
             return c.pop(a[0], a[1])
@@ -341,7 +340,11 @@ def result_plain(name, res, SC):
 
 
 def _sort_key(x):
-    return repr(x)
+    import json
+    try:
+        return json.dumps(x, sort_keys=True, default=repr)
+    except Exception:
+        return repr(x)
 
 
 def results_agree(name, kind, lib_res, mod_res):
